@@ -4,8 +4,8 @@ package main
 // release in package join, no Close on parameters.
 
 import (
-	"go/token"
 	"fmt"
+	"go/token"
 	"go/types"
 	"strings"
 
@@ -454,6 +454,40 @@ func checkGeneratedJoinShape(c *Ctx) {
 		c.check(ok, rule, fnName(fn)+"/delegates-with-source-package-filter", c.P.fnPos(fn), "", fnName(fn)+" does not delegate to "+fn.Name()+"With with its own arguments and the selection filter of the source's package")
 	}
 	c.check(wr >= 8, rule, "join/wrappers", "-", fmt.Sprintf("%d wrappers", wr), "fewer than the 8 join wrappers found")
+	// IngressPods = ServicePods over the services selected by IngressServices (not over the base
+	// service controller), on the caller's pod controller
+	if fn := c.mustFunc("join", "IngressPods"); fn != nil && len(fn.Params) == 4 {
+		ok, detail := false, "no path returns a pods join"
+		for _, pa := range pathsOf(c, fn) {
+			var svcs *Term
+			for _, e := range pa.Effects {
+				if e.Kind != "call" || e.Fn == nil {
+					continue
+				}
+				switch fnName(e.Fn) {
+				case "join:IngressServices":
+					svcs = &Term{K: "extract", S: "0", A: []*Term{e.Res}}
+					if len(e.Args) != 3 || !isParamT(e.Args[0], fn.Params[0].Name()) || !isParamT(e.Args[1], fn.Params[1].Name()) || !isParamT(e.Args[2], fn.Params[2].Name()) {
+						detail = "IngressServices is not given (ctx, the ingress controller, the service controller)"
+						svcs = nil
+					}
+				case "join:ServicePods":
+					ok = true
+					a1 := e.Args[1]
+					for a1.K == "makeiface" || a1.K == "convert" || a1.K == "changeiface" {
+						a1 = a1.A[0]
+					}
+					if svcs == nil || len(e.Args) != 3 || !sameTerm(a1, svcs) || !isParamT(e.Args[0], fn.Params[0].Name()) || !isParamT(e.Args[2], fn.Params[3].Name()) {
+						ok, detail = false, "ServicePods is not given (ctx, the services selected by IngressServices, the caller's pod controller): "+termList(e.Args)
+					}
+				}
+			}
+			if ok {
+				break
+			}
+		}
+		c.check(ok, rule, "join:IngressPods/pods-of-the-selected-services", c.P.fnPos(fn), "", "IngressPods: "+detail)
+	}
 }
 
 // closureRefilters: the closure (or a closure it calls) invokes Refilter.
